@@ -304,4 +304,28 @@ theorem tq_drain_sorted (sec usec : Int) (fuel : Nat) (q : TimerQueue.TQ) (hi : 
 example : TQInv exQ ∧ tqDrain 5 0 10 exQ = [(3, 103), (1, 101), (2, 102)] ∧ tqDrain 4 0 10 exQ = [(3, 103)] :=
   ⟨exQ_inv, by decide, by decide⟩
 
+/-- In every state reachable by any finite sequence of timer-queue add/delete/increase/getmin/getptr
+(equal and distinct times) the invariant holds — so every live record's handle is valid — and the heap
+holds exactly the live records. -/
+theorem tq_reachable_inv (ops : List TOp) :
+    TQInv (trun TSt.init ops).q ∧ (trun TSt.init ops).q.h.a.toList.Perm (trun TSt.init ops).live :=
+  have h := treach_run TSt.init ops treach_init
+  ⟨h.inv, h.perm⟩
+
+example : (trun TSt.init (exTOps.take 8)).q.h.a = #[3, 4, 1] ∧ (trun TSt.init exTOps).q.h.a = #[4] :=
+  ⟨by decide, by decide⟩
+
+/-- Every answer of the timer-queue model is accepted by the monitor `Spec.PQ.tmonStep`: `getptr` by
+`getptrOk` (least, due, or nothing due) plus "the pointer is the one stored with the record", `getmin` by
+"the least live time", and every in-contract add/delete/increase must succeed. -/
+theorem tq_trace_accepted (ops : List TOp) : taccepts TMSt.init (ttrace TSt.init ops) = true := by
+  have := taccepts_trace TSt.init ops treach_init
+  rw [mOf_init] at this; exact this
+
+example : (ttrace TSt.init exTOps).map (·.2) =
+    [.ok, .ok, .ok, .ok, .tmin (some (2, 7)), .rel none, .ok, .ok, .rel (some (3, 103)), .rel (some (1, 101)),
+     .rel none, .tmin (some (9, 1))] := by decide
+example : taccepts TMSt.init [(.add 1 5 0 101, .ok), (.add 2 3 0 102, .ok), (.get 9 0, .rel (some (1, 101)))] = false := by
+  decide
+
 end Percival.C13
